@@ -12,6 +12,12 @@ AST (python tuples)
         | ('fnlit', x, y, ity)   (let v<x> := fn(v<y>: T) -> T { return v<y>; };  a function literal that is never called:
                                   no effect in the reference (SSkip), but every later statement of the function comes after it)
         | ('print', [es]) | ('expr', e) | ('block', block)
+        | ('closure', g)         (function g of the program is written here as a function literal `let c<g> := fn(...) { ... };`.
+                                  fn g carries closure={param index: variable of the enclosing function}: those parameters are not
+                                  written; the body mentions the enclosing function's variable instead (captured by reference), and a
+                                  call ('call', g, args) is written c<g>(the other args).  In the reference g stays an ordinary function
+                                  that receives a captured aggregate by mutable reference and a captured scalar by value (the literal's
+                                  body never assigns it, so reading it at call time is the same); the statement itself is SSkip)
   block: list of stmt.  fn: dict(params=[(x, ty)], ret=ty, body=block[, method=True]).  prog: list of fn, last is main.
   A method is a function whose first parameter (a struct, passed by value) is written as the receiver: `fn (v1: S0) m3(v2: i32)`,
   called `recv.m3(arg)`; in the reference it is the plain function f3(recv, arg).
@@ -73,7 +79,7 @@ def r_expr(e):
     if k == "bool": return "true" if e[1] else "false"
     if k == "str": return '"%s"' % e[1]
     if k == "elit": return "E%d::V%d" % (e[1], e[2])
-    if k == "var": return "v%d" % e[1]
+    if k == "var": return "v%d" % _rn(e[1])
     if k == "bin": return "(%s %s %s)" % (r_expr(e[2]), e[1], r_expr(e[3]))
     if k == "un": return "(%s%s)" % (e[1], r_expr(e[2]))
     if k == "cast": return "(%s as %s)" % (r_expr(e[1]), e[2])
@@ -82,8 +88,10 @@ def r_expr(e):
         def arg(i, a):
             if i < len(pts) and is_mutref(pts[i]):
                 # by mutable reference: &'x for a local, the bare name for a parameter that already is a reference
-                return r_expr(a) if (a[0] == "var" and a[1] in REFVARS) else "&'" + r_expr(a)
+                return r_expr(a) if (a[0] == "var" and _rn(a[1]) in REFVARS) else "&'" + r_expr(a)
             return r_expr(a)
+        if e[1] in CLOSURES:
+            return "c%d(%s)" % (e[1], ", ".join(arg(i, a) for i, a in enumerate(e[2]) if i not in CLOSURES[e[1]]))
         if e[1] in METHODS and e[2]:
             return "%s.m%d(%s)" % (r_expr(e[2][0]), e[1], ", ".join(arg(i + 1, a) for i, a in enumerate(e[2][1:])))
         return "%s%d(%s)" % ("m" if e[1] in METHODS else "f", e[1], ", ".join(arg(i, a) for i, a in enumerate(e[2])))
@@ -107,14 +115,19 @@ def r_stmt(s, ind):
     if k == "let":
         kw = "const" if (len(s) > 4 and s[4]) else "let"
         return ["%s%s v%d: %s = %s;" % (p, kw, s[1], r_ty(s[2]), r_expr(s[3]))]
-    if k == "assign": return ["%sv%d = %s;" % (p, s[1], r_expr(s[2]))]
-    if k == "cassign": return ["%sv%d %s= %s;" % (p, s[1], s[2], r_expr(s[3]))]
-    if k == "inc": return ["%sv%d%s;" % (p, s[1], "++" if s[2] > 0 else "--")]
+    if k == "assign": return ["%sv%d = %s;" % (p, _rn(s[1]), r_expr(s[2]))]
+    if k == "cassign": return ["%sv%d %s= %s;" % (p, _rn(s[1]), s[2], r_expr(s[3]))]
+    if k == "inc": return ["%sv%d%s;" % (p, _rn(s[1]), "++" if s[2] > 0 else "--")]
     if k == "assignf":
-        lhs = "v%d[%d]" % (s[1], s[2]) if (len(s) > 4 and s[4]) else "v%d.F%d" % (s[1], s[2])
+        lhs = "v%d[%d]" % (_rn(s[1]), s[2]) if (len(s) > 4 and s[4]) else "v%d.F%d" % (_rn(s[1]), s[2])
         return ["%s%s = %s;" % (p, lhs, r_expr(s[3]))]
+    if k == "closure":
+        f = PROG[s[1]]
+        ps = ", ".join("v%d: %s" % (x, r_ty(t)) for i, (x, t) in enumerate(f["params"]) if i not in CLOSURES[s[1]])
+        ret = "" if f["ret"] == "void" else " -> %s" % r_ty(f["ret"])
+        return ["%slet c%d := fn(%s)%s {" % (p, s[1], ps, ret)] + r_block(f["body"], ind + 1) + ["%s};" % p]
     if k == "cassignf":
-        lhs = "v%d[%d]" % (s[1], s[2]) if (len(s) > 5 and s[5]) else "v%d.F%d" % (s[1], s[2])
+        lhs = "v%d[%d]" % (_rn(s[1]), s[2]) if (len(s) > 5 and s[5]) else "v%d.F%d" % (_rn(s[1]), s[2])
         return ["%s%s %s= %s;" % (p, lhs, s[3], r_expr(s[4]))]
     if k == "if":
         out = ["%sif %s {" % (p, r_expr(s[1]))] + r_block(s[2], ind + 1)
@@ -148,12 +161,23 @@ def r_stmt(s, ind):
 METHODS = set()     # indexes of the functions of the program being rendered that are methods (set by to_ferret)
 FNPARAMS = []       # parameter types of every function of the program being rendered
 REFVARS = set()     # variables that are by-reference parameters (variable numbers are unique in a program)
+CLOSURES = {}       # function index -> {parameter index: captured variable} for functions written as function literals
+RENAME = {}         # parameter variable of such a function -> the captured variable of the enclosing function
+PROG = []
+
+def _rn(x):
+    while x in RENAME:
+        x = RENAME[x]
+    return x
 
 def _set_context(prog):
-    global METHODS, FNPARAMS, REFVARS
+    global METHODS, FNPARAMS, REFVARS, CLOSURES, RENAME, PROG
+    PROG = prog
     METHODS = {k for k, f in enumerate(prog) if f.get("method")}
     FNPARAMS = [[t for _, t in f["params"]] for f in prog]
-    REFVARS = {x for f in prog for x, t in f["params"] if is_mutref(t)}
+    CLOSURES = {k: {int(i): v for i, v in f["closure"].items()} for k, f in enumerate(prog) if f.get("closure")}
+    RENAME = {prog[k]["params"][i][0]: v for k, caps in CLOSURES.items() for i, v in caps.items()}
+    REFVARS = {x for f in prog for x, t in f["params"] if is_mutref(t)} - set(RENAME)
 
 def r_fn(k, f, is_main):
     name = "main" if is_main else "f%d" % k
@@ -173,6 +197,7 @@ def to_ferret(prog):
         _set_context(prog)
         body = []
         for k, f in enumerate(prog):
+            if f.get("closure"): continue      # written where its ('closure', k) statement stands
             body += r_fn(k, f, k == len(prog) - 1)
     out = ['import "std/io";', ""]
     for k in sorted({int(m) for l in body for m in re.findall(r"\bE(\d+)\b", l)}):
@@ -246,6 +271,7 @@ def c_stmt(s):
             chain = "(SIf (EBin Eq (EVar %d) (ELit %s (%d)%%Z)) %s %s)" % (tmp, c_ity(s[2]), v, c_block(b), chain)
         return "(SBlock (SSeq (SLet %d (TInt %s) %s) %s))" % (tmp, c_ity(s[2]), c_expr(s[1]), chain)
     if k == "fnlit": return "SSkip"
+    if k == "closure": return "SSkip"
     if k == "break": return "SBreak"
     if k == "continue": return "SContinue"
     if k == "return": return "(SReturn None)" if s[1] is None else "(SReturn (Some %s))" % c_expr(s[1])
@@ -332,6 +358,8 @@ class Gen:
         self.enums = True                 # enum values: variants, == / !=, match, parameters, results
         self.fnlits = True                # function literals that are declared and never called (native only: the wasm back end
                                           # rejects function literals, an open finding of C13)
+        self.closures = False             # closure kit: functions written as (nested) function literals capturing variables
+        self.closure_only = set()         # functions reserved for the kit (never called by generated code elsewhere)
         self.refparams = set()            # by-reference parameters of the function being generated
         # the borrow checker keeps a mutable borrow alive to the end of the statement: within one statement a variable that is
         # lent (&'x) may be read before the call (left to right) but is not mentioned after it, and is not the target of the
@@ -376,7 +404,7 @@ class Gen:
         return True
 
     def cands(self, env, pred):
-        return [k for k, f in enumerate(self.fns) if pred(f) and self.callable_in(k, env)]
+        return [k for k, f in enumerate(self.fns) if pred(f) and k not in self.closure_only and self.callable_in(k, env)]
 
     def int_expr(self, t, env, d, nonlit=False):
         r = self.rng
@@ -793,8 +821,11 @@ class Gen:
                 out.append(("let", x, t, e, False))
         return out
 
-    def function(self, k, force=None):
-        """force = (parameter types, result type, method?) pins the signature (used for the evaluation-order kit)"""
+    def function(self, k, force=None, caps=(), inner=None):
+        """force = (parameter types, result type, method?) pins the signature (used for the evaluation-order kit).
+        caps: indexes of parameters that stand for captured variables (closure kit): scalar ones are never assigned;
+        inner: index of a kit function to be written as a function literal inside this body and called with this
+        function's own captured parameters."""
         r = self.rng
         ret = r.choice(["void"] + [self.any_ty(with_struct=True)] * 3)
         rec = ret in ITYS and r.random() < 0.35
@@ -832,8 +863,11 @@ class Gen:
             elif c < 0.8: body.append(("cassignf", x, k, r.choice(["+", "-", "*"]), self.int_expr(ft, env, 1), is_array(t)))
             elif c < 0.92: body.append(("assign", x, ("slit", sid_of(t), [self.int_expr(f_, env, 1) for f_ in fields_of(t)])))
             self.feat("write-through-reference")
+        prot = ({params[0][0]} if rec else set()) | {params[i][0] for i in caps if not is_mutref(params[i][1])}
+        if inner is not None:
+            body += self.closure_calls(inner, env, params[1][0], params[2][0], params[0][1], base_ty(params[1][1]))
         self.budget = r.randint(2, 8)
-        body += self.block(env, min(2, self.max_depth), False, ret, r.randint(1, 5), {params[0][0]} if rec else set())
+        body += self.block(env, min(2, self.max_depth), False, ret, r.randint(1, 5), prot)
         if body and body[-1][0] == "return":
             body.pop()
         if block_exits(body):
@@ -858,9 +892,26 @@ class Gen:
         self.fns.append(([t for _, t in params], ret, False))
         return dict(params=params, ret=ret, body=body, method=method)
 
+    def closure_calls(self, g, env, x, n, it, st):
+        """the literal of kit function g, then calls of it with the aggregate x and the scalar n as its captured variables,
+        interleaved with reads and writes of x by the enclosing function"""
+        r = self.rng
+        out = [("closure", g)]
+        for _ in range(r.randint(1, 3)):
+            self.stmt_used, self.stmt_lent = set(), {x}
+            out.append(("print", [("call", g, [self.int_expr(it, env, 1), ("var", x), ("var", n)])]))
+            self.stmt_used, self.stmt_lent = set(), set()
+            out.append(("print", [("field", ("var", x), k_, is_array(st)) for k_ in range(min(3, len(fields_of(st))))]))
+            if r.random() < 0.5:
+                k_ = r.randrange(len(fields_of(st)))
+                out.append(("assignf", x, k_, self.int_expr(fields_of(st)[k_], env, 1), is_array(st)))
+            self.feat("closure-call")
+        return out
+
     def program(self):
         r = self.rng
         self.fns = []
+        self.closure_only = set()
         self.str_cat_budget = 6
         prog = []
         for k in range(r.randint(0, 3)):
@@ -875,10 +926,30 @@ class Gen:
             kb = len(prog); prog.append(self.function(kb, force=(["&" + st, it], it, False)))
             kit = (st, it, ka, kb)
             self.feat("evaluation-order-kit")
+        ckit = None
+        if self.closures and self.refs and self.structs and r.random() < 0.4:
+            # closure kit: main writes kit function G as a function literal capturing an aggregate and a scalar of main; G's
+            # body writes kit function H as a nested literal capturing G's captured variables (variables of main, transitively)
+            st, it, it2 = "S%d" % r.randrange(len(STRUCTS)), r.choice(self.itys), r.choice(self.itys)
+            kh = len(prog); self.closure_only.add(kh)
+            prog.append(self.function(kh, force=([it, "&" + st, it2], it, False), caps=(1, 2)))
+            kg = len(prog); self.closure_only.add(kg)
+            prog.append(self.function(kg, force=([it, "&" + st, it2], it, False), caps=(1, 2), inner=kh))
+            prog[kh]["closure"] = {1: prog[kg]["params"][1][0], 2: prog[kg]["params"][2][0]}
+            ckit = (st, it, it2, kg)
+            self.feat("closure-kit")
         self.budget = self.max_stmts if getattr(self, "long_main", False) else r.randint(self.max_stmts // 3, self.max_stmts)
         self.refparams = set()
         env = [{}]
         body = self.prelude(env)
+        if ckit:
+            st, it, it2, kg = ckit
+            x, n = self.fresh(), self.fresh()
+            env[-1][x] = (st, False); env[-1][n] = (it2, False)
+            body.append(("let", x, st, ("slit", sid_of(st), [self.lit(ft) for ft in fields_of(st)]), False))
+            body.append(("let", n, it2, self.lit(it2), False))
+            prog[kg]["closure"] = {1: x, 2: n}
+            body += self.closure_calls(kg, env, x, n, it, st)
         if kit:
             st, it, ka, kb = kit
             x = self.fresh()
